@@ -21,14 +21,14 @@ Inv_C07_CropInvariant ==
                                   /\ C07_Kept(Crop(rb, prm), raw, prm)
 Inv_C07_Blanked ==      \* replacing the hits above the limit by non-detections is what the cropping does
   pc = "built" => /\ NAbove(data, prm) = 0 /\ Crop(data, prm) = data
-                  /\ (prm.hasmsa => Cardinality({i \in Idx(data) : data[i].h # -1 /\ data[i].h > Lim(prm)}) = 0)
+                  /\ (prm.hasmsa => Cardinality({i \in Idx(data) : data[i].h # NaNH /\ data[i].h > Lim(prm)}) = 0)
 
 (* ---- C10: rows carry index labels; selection by label hits every row with that label ---- *)
 LabelSeqs(n) == {[i \in 1..n |-> i], [i \in 1..n |-> ((i - 1) % 2) + 1], [i \in 1..n |-> 1], [i \in 1..n |-> n + 1 - i]}
 CropByLabel(rows, lab, p) ==
   LET blankL == {lab[i] : i \in {j \in Idx(rows) : IsAbove(rows[j], p) /\ rows[j].k <= 1}}
       dropL  == {lab[i] : i \in {j \in Idx(rows) : IsAbove(rows[j], p) /\ rows[j].k > 1}}
-      step1  == [i \in Idx(rows) |-> IF lab[i] \in blankL THEN [rows[i] EXCEPT !.h = -1, !.k = 0] ELSE rows[i]]
+      step1  == [i \in Idx(rows) |-> IF lab[i] \in blankL THEN [rows[i] EXCEPT !.h = NaNH, !.k = 0] ELSE rows[i]]
       keepI  == SelectSeq([i \in Idx(rows) |-> i], LAMBDA i : lab[i] \notin dropL)
   IN [j \in Idx(keepI) |-> step1[keepI[j]]]
 Unique(lab) == \A i, j \in Idx(lab) : i # j => lab[i] # lab[j]
